@@ -71,6 +71,7 @@ Props ==
 
 TStep == /\ E.a \in {"tx", "block"} /\ l' = l + 1
          /\ Chk("LG_MintSplit", (E.a = "block" /\ E.ok) => SplitExact(P.split))   \* also in "big" histories
+         /\ Chk("LG_CollExact", CollExact(P.split))
          /\ IF live /\ ~P.big
             THEN /\ Logged /\ live' = TRUE /\ auth' = P.auth
                  /\ emission' = IF E.a = "block" THEN P.supply[MintDenom] - supply[MintDenom] ELSE emission
